@@ -34,6 +34,7 @@ pub fn exec_fetch(which: Which, case: &FCase) -> CaseReport {
     cls!(f.donated_closure, "donated-closure(lookup-only-leader)");
     cls!(f.insert_during_flight_with_waiter, "insert-during-flight-with-waiter");
     cls!(f.late_fetch_after_insert, "late-fetch-after-insert");
+    cls!(f.insert_during_final_poll, "insert-completes-during-final-poll-of-origin");
     cls!(f.disk_hit, "disk-hit");
     cls!(f.disk_err, "disk-error");
     cls!(f.refetch_after_failure, "refetch-after-failure");
@@ -79,6 +80,7 @@ fn fop_c11(keys: u8) -> impl Strategy<Value = FOp> {
         5 => (any::<u16>(), prop::bool::weighted(0.85)).prop_map(|(i, ok)| FOp::FetchResolve { i, ok }),
         5 => (0..keys).prop_map(|k| FOp::Insert { k }),
         2 => (0..keys).prop_map(|k| FOp::InsertDiskOnly { k }),
+        2 => any::<u16>().prop_map(|i| FOp::FetchResolveWhileInserting { i }),
         1 => (0..keys).prop_map(|k| FOp::Remove { k }),
         3 => (0..keys).prop_map(|k| FOp::Get { k }),
         5 => Just(FOp::Settle),
@@ -138,6 +140,7 @@ fn alphabet(which: Which) -> Vec<FOp> {
             FOp::FetchResolve { i: first, ok: true },
             FOp::FetchResolve { i: last, ok: true },
             FOp::FetchResolve { i: first, ok: false },
+            FOp::FetchResolveWhileInserting { i: first },
             FOp::Insert { k: 0 },
             FOp::InsertDiskOnly { k: 0 },
             FOp::Remove { k: 0 },
